@@ -1406,6 +1406,18 @@ impl SparqlDatabase {
     }
 
     // Encode triples
+    /// Encodes a term the line loaders have already cleaned (IRI without `<>`,
+    /// literal decoded to its value). Only a quoted triple is parsed again;
+    /// everything else is interned as it is, so that a literal value is not
+    /// trimmed or unquoted a second time.
+    fn encode_cleaned_term(&self, term: &str) -> u32 {
+        if term.starts_with("<<") && term.ends_with(">>") {
+            self.encode_term_star(term)
+        } else {
+            self.dictionary.write().unwrap().encode(term)
+        }
+    }
+
     pub fn encode_triples(
         &mut self,
         non_encoded_triples: Vec<Vec<(String, String, String)>>,
@@ -1414,9 +1426,9 @@ impl SparqlDatabase {
         for triple_strings in non_encoded_triples {
             for (subject, predicate, object) in triple_strings {
                 let main_triple = Triple {
-                    subject: self.encode_term_star(&subject),
-                    predicate: self.encode_term_star(&predicate),
-                    object: self.encode_term_star(&object),
+                    subject: self.encode_cleaned_term(&subject),
+                    predicate: self.encode_cleaned_term(&predicate),
+                    object: self.encode_cleaned_term(&object),
                 };
                 encoded_triples.push(main_triple);
             }
@@ -1449,13 +1461,20 @@ impl SparqlDatabase {
             {
                 match graph {
                     Some(graph) => {
-                        self.add_quad_parts(&subject, &predicate, &object, &graph);
+                        let graph_id = self.dictionary.write().unwrap().encode(&graph);
+                        let quad = Quad {
+                            subject: self.encode_cleaned_term(&subject),
+                            predicate: self.encode_cleaned_term(&predicate),
+                            object: self.encode_cleaned_term(&object),
+                            graph: GraphId::Named(graph_id),
+                        };
+                        self.add_quad(quad);
                     }
                     None => {
                         let quad = Quad {
-                            subject: self.encode_term_star(&subject),
-                            predicate: self.encode_term_star(&predicate),
-                            object: self.encode_term_star(&object),
+                            subject: self.encode_cleaned_term(&subject),
+                            predicate: self.encode_cleaned_term(&predicate),
+                            object: self.encode_cleaned_term(&object),
                             graph: GraphId::Default,
                         };
                         self.add_quad(quad);
